@@ -24,7 +24,7 @@
 (***************************************************************************)
 EXTENDS GenNameAddr, Json
 
-CONSTANTS Part
+CONSTANTS Part, Deep
 VARIABLE c                                      \* the choice
 
 TAIL == <<CR, LF, 88>>                          \* CRLF + a following byte: the header end is definitive
@@ -122,10 +122,10 @@ LeadTrail == {<<0, 0>>, <<1, 0>>, <<3, 1>>, <<0, 2>>}
 SepsFor(i)   == IF LVHasParams(i) THEN SepsAfter ELSE SepsBoth
 SepsWsFor(i) == IF LVHasParams(i) THEN SepsBoth \ SepsAfter ELSE {}
 Lists1 == {<<lt[1], <<i>>, <<>>, lt[2]>> : i \in 1..NLV, lt \in LeadTrail}
-L3Pool == {1, 2, 3, 6, 9}
-Seps3(i) == SepsFor(i) \cap {<<0, 0>>, <<0, 1>>, <<3, 1>>, <<0, 3>>}
-\* NOTE (TLC): no UNION of many small sets (quadratic in TLC): products filtered by a predicate instead
 IdxLV == 1..NLV
+L3Pool == IF Deep THEN IdxLV ELSE {1, 2, 3, 6, 9}       \* (Deep: the thorough tier)
+Seps3(i) == IF Deep THEN SepsFor(i) ELSE SepsFor(i) \cap {<<0, 0>>, <<0, 1>>, <<3, 1>>, <<0, 3>>}
+\* NOTE (TLC): no UNION of many small sets (quadratic in TLC): products filtered by a predicate instead
 Lists2Of(S(_)) == {<<lt[1], <<u[1], u[2]>>, <<u[3]>>, lt[2]>> : u \in {v \in IdxLV \X IdxLV \X SepsBoth : v[3] \in S(v[1])}, lt \in LeadTrail}
 Lists3 == {<<0, <<u[1], u[2], u[3]>>, <<u[4], u[5]>>, 0>> :
              u \in {v \in L3Pool \X L3Pool \X L3Pool \X SepsBoth \X SepsBoth : v[4] \in Seps3(v[1]) /\ v[5] \in Seps3(v[2])}}
@@ -167,7 +167,8 @@ MkLine(i) == LET p == LinePool(i)  ml == MkList(<<0, p.vals, p.seps, 0>>) IN
 LineSeqOk(idx) == \A h \in {1, 2} : Cardinality({k \in 1..Len(idx) : LinePool(idx[k]).h = h}) <= 1
 \* (the last two: 12 and 14 Contact values in 3 / 4 headers -- more than the 10 elements of the built-in array of a message)
 LineSeqs == {<<i>> : i \in 1..NLines} \cup {<<i, j>> : i \in 1..NLines, j \in 1..NLines} \cup {<<13, 13, 13>>, <<13, 10, 13, 12>>}
-            \cup {<<i, j, k>> : i \in {1, 9, 12, 15}, j \in {5, 8, 13, 16, 18}, k \in {6, 10, 11, 14, 17}}
+            \cup (IF Deep THEN {<<i, j, k>> : i \in 1..NLines, j \in 1..NLines, k \in 1..NLines}
+                  ELSE {<<i, j, k>> : i \in {1, 9, 12, 15}, j \in {5, 8, 13, 16, 18}, k \in {6, 10, 11, 14, 17}})
 InitNameWs == c \in {<<"nastrict", h, 0, 0, <<<<0, d, w, u>>, ps>>>> :
                         h \in {1, 2, 8, 13}, d \in 1..NNADisp, w \in 1..6, u \in {1, 5}, ps \in {<<>>, <<P0(1, 3)>>}}
 LineSeqsOk == {x \in LineSeqs : LineSeqOk(x)}
